@@ -23,6 +23,7 @@ pub struct Collector {
     pub violation_total: u64,
     seen_sigs: HashSet<String>,
     journal: Option<std::fs::File>,
+    journal_bytes: usize,
     pub notes: Vec<String>,
 }
 
@@ -43,6 +44,7 @@ impl Collector {
             violation_total: 0,
             seen_sigs: HashSet::new(),
             journal,
+            journal_bytes: 0,
             notes: Vec::new(),
         }
     }
@@ -51,8 +53,16 @@ impl Collector {
     /// allocation failure) can be attributed by the supervisor.
     pub fn journal(&mut self, case: &str) {
         if let Some(f) = &mut self.journal {
+            // only the last record is ever read (by the supervisor, after a crash): keep the file
+            // bounded by starting over once it has grown past 256 KiB (it is opened in append mode,
+            // so the next record lands at the new end)
+            if self.journal_bytes > 256 * 1024 {
+                let _ = f.set_len(0);
+                self.journal_bytes = 0;
+            }
             let _ = writeln!(f, "{case}");
             let _ = f.flush();
+            self.journal_bytes += case.len() + 1;
         }
     }
 
